@@ -110,37 +110,62 @@ def run(F, R, tier):
     r1.floor(11)
 
     # ------------------------------------------------------------------ R2 thumbprint
-    r2 = R.rule("C18-R2", "T5+T7", "thumbprint input reads exactly the RFC 7638/8037 required members per key type, in lexicographic order, each member printing the same-named field")
+    r2 = R.rule("C18-R2", "T8+T7", "thumbprint_hash_input, per key type on its decision table, formats exactly the RFC 7638/8037 required members in lexicographic order, each printing the same-named member of the parameters (kty: the key type's name), and depends on nothing else; thumbprint_sha256 = SHA-256 of exactly that string and thumbprint_sha256_b64 = its base64url, unconditionally (no decision on any other member such as kid)")
+    import sibling as SB
     fn = JWK + "::thumbprint_hash_input"
-    h = F.hir(fn)
-    if r2.anchor(h, fn):
-        env = H.Env(h)
-        m = H.find_first(h, lambda n: n.get("k") == "match" and n.get("src") == "normal")
-        if r2.require(m is not None, (fn, "table"), "per-type table not found"):
-            seen = set()
-            for arm in m["arms"]:
-                v = H.pat_str(arm["pat"]).split("(")[0]
-                seen.add(v)
-                fc = format_calls({"value": arm["body"]}, env, accessors=re.compile(r"JwkType::name$"))
-                if not r2.require(len(fc) == 1, (fn, "template", v), "no single format template in arm %s" % v):
-                    continue
-                tpl, oo, node = fc[0]
-                shape = "".join("{}" if t[0] == "arg" else t[1] for t in tpl)
-                members = re.findall(r'"([A-Za-z0-9_]+)":"\{\}"', shape)
-                want = S.THUMBPRINT_MEMBERS.get(v)
-                r2.site("thumbprint %s: %s" % (v, shape), node["sp"])
-                r2.require(members == want, (fn, "members", v), "thumbprint members for %s are %s, required (in lexicographic order) %s" % (v, members, want))
-                r2.require(re.fullmatch(r'\{("[a-z]+":"\{\}",?)+\}', shape) is not None and shape.count("{}") == len(members), (fn, "shape", v), "thumbprint template for %s is not a flat JSON object of string members: %s" % (v, shape))
-                for name, o in zip(members, oo):
-                    if name == "kty":
-                        ok = o == {("param", "self", "kty", "name")}
-                    else:
-                        ok = bool(o) and all(x[-1] == name and x[0] in ("call", "param") for x in o)
-                    r2.require(ok, (fn, "member-source", v, name), "thumbprint member `%s` of %s does not print the same-named field: %s" % (name, v, sorted(map(str, o))))
-            r2.require(seen == set(S.THUMBPRINT_MEMBERS), (fn, "variants"), "thumbprint table does not cover exactly Ec/Rsa/Oct/Okp: %s" % sorted(seen))
-            so = H.origins(m["scrut"], env, accessors=re.compile(r"Jwk::params$"))
-            r2.require(so == {("param", "self", "params")}, (fn, "scrutinee"), "thumbprint does not match on self.params()")
-    r2.floor(4)
+    if r2.anchor(F.hir(fn), fn):
+        ev2 = sym.Evaluator(F, opaque=r"JwkType::name$|Jwk::params$", inline_depth=3)
+        try:
+            paths = [q for q in ev2.explore(fn)]
+        except (sym.Abort, sym.TooManyPaths) as e:
+            paths = []
+            r2.fail((fn, "not-evaluable"), "thumbprint_hash_input could not be evaluated: %s" % e)
+        seen = set()
+        PARAMS = ("call", JWK + "::params", (SR.SELF,))
+        for q in paths:
+            if not q.complete:
+                r2.fail((fn, "not-evaluable"), "thumbprint_hash_input: a path could not be evaluated to the end (%s)" % q.note)
+                continue
+            vs = [c for (a, c, _, _) in q.decisions if a[0] == "variant" and a[1] in (PARAMS, SR.fld("params"))]
+            other = [a for (a, c, _, _) in q.decisions if not (a[0] == "variant" and a[1] in (PARAMS, SR.fld("params")))]
+            v = next((c for c in vs if c in S.THUMBPRINT_MEMBERS), None)
+            if not r2.require(v is not None and not other, (fn, "scrutinee"), "thumbprint input depends on something other than the parameter family: %s" % [sym.fmt_atom(a) for a in other][:3]):
+                continue
+            seen.add(v)
+            pat, argv = SB.render_pattern(q)
+            want = S.THUMBPRINT_MEMBERS[v]
+            members = re.findall(r'"([A-Za-z0-9_]+)":"\{\}"', pat)
+            r2.site("thumbprint %s: %s" % (v, pat))
+            r2.require(members == want, (fn, "members", v), "thumbprint members for %s are %s, required (in lexicographic order) %s" % (v, members, want))
+            r2.require(pat == "{" + ",".join('"%s":"{}"' % m_ for m_ in members) + "}" and len(argv) == len(members), (fn, "shape", v), "thumbprint template for %s is not a flat JSON object of string members: %s" % (v, pat))
+            for name, a_ in zip(members, argv):
+                if name == "kty":
+                    ok = isinstance(a_, tuple) and a_[:1] == ("call",) and a_[1].endswith("JwkType::name") and SR.pure(a_[2][0], SR.fld("kty"))
+                else:
+                    base_ok = any(SR.pure(a_, ("field", ("payload", root_, v, 0), name)) for root_ in (PARAMS, SR.fld("params")))
+                    ok = base_ok
+                r2.require(ok, (fn, "member-source", v, name), "thumbprint member `%s` of %s does not print the same-named field: %s" % (name, v, sym.fmt(a_)))
+        r2.require(seen == set(S.THUMBPRINT_MEMBERS) or not paths, (fn, "variants"), "thumbprint table does not cover exactly Ec/Rsa/Oct/Okp: %s" % sorted(seen))
+    for fn, enc in ((JWK + "::thumbprint_sha256", False), (JWK + "::thumbprint_sha256_b64", True)):
+        if not r2.anchor(F.hir(fn), fn):
+            continue
+        tab = SR.Table(F, fn, opaque=r"Jwk::thumbprint_hash_input$|SHA256$|Sha256(<.*>)?::digest$|encode_b64$|Jwk::kid$|decode_b64$", rule=r2, inline_depth=3)
+        okh = len(tab.paths) == 1 and not tab.paths[0].decisions
+        r2.require(okh or not tab.paths, (fn, "unconditional"), "%s branches (%s): the thumbprint must depend on the required members only, not on kid or any other optional member" % (
+            L.short(fn), [sym.fmt_atom(a) for q in tab.paths for (a, c, _, _) in q.decisions][:3]))
+        for q in tab.paths:
+            hi = q.calls(r"Jwk::thumbprint_hash_input$")
+            sh = [e for e in q.events if e.kind == "call" and re.search(r"SHA256$|::digest$", e.fn or "")]
+            good = len(hi) == 1 and SR.pure(hi[0].args[0], SR.SELF) and len(sh) == 1 and SR.derives(sh[0].args[0], hi[0].result.t)
+            if enc:
+                eb = q.calls(r"encode_b64$")
+                good = good and len(eb) == 1 and SR.pure(q.ret, eb[0].result.t) and (len(sh[0].args) < 2 or SR.pure(eb[0].args[0], sym.term(sh[0].args[1])) or SR.derives(eb[0].args[0], sh[0].result.t))
+            else:
+                good = good and (SR.derives(q.ret, sh[0].result.t) or (len(sh[0].args) > 1 and SR.pure(q.ret, sym.term(sh[0].args[1])))) if good else False
+            if not r2.require(good, (fn, "hash-of-input"), "%s is not %sSHA-256(thumbprint_hash_input(self)) on every path: %s" % (L.short(fn), "base64url of " if enc else "", q.ret)):
+                okh = False
+        r2.site("%s = %sSHA-256(thumbprint_hash_input(self)), unconditionally: %s" % (L.short(fn), "b64(" if enc else "", okh))
+    r2.floor(6)
 
     # ------------------------------------------------------------------ R3 kty ↔ params coupling
     r3 = R.rule("C18-R3", "T1", "every writer of Jwk::kty / Jwk::params maintains `kty == params.kty()`")
